@@ -28,6 +28,9 @@ import (
 // strategy can be switched between cases on a long-lived Cluster.
 type SwitchAllocator struct {
 	Descend bool
+	// After, when set, runs after every allocation (a driver changes the world
+	// between two allocations with it).
+	After func()
 	asc     ascendalloc.AscendAllocator
 	desc    descendalloc.DescendAllocator
 }
@@ -35,6 +38,9 @@ type SwitchAllocator struct {
 func (s *SwitchAllocator) SetClient(*rpc.Client)          {}
 func (s *SwitchAllocator) Shutdown(context.Context) error { return nil }
 func (s *SwitchAllocator) Allocate(ctx context.Context, c cid.Cid, current, candidates, priority map[peer.ID]*api.Metric) ([]peer.ID, error) {
+	if s.After != nil {
+		defer s.After()
+	}
 	if s.Descend {
 		return s.desc.Allocate(ctx, c, current, candidates, priority)
 	}
